@@ -26,6 +26,9 @@ const (
 	EJournal    // register + SSTORE a + journal
 	EJournalAA  // register, SSTORE a, journal, journal (repeat collapses)
 	EJournalABA // register, SSTORE a, journal, SSTORE b, journal, SSTORE a, journal
+	// EJournalRef: register a reference-typed variable, store a 40-byte string (out of place: head word + two data
+	// words), journal it, change its first data word, journal, change it back, journal (long values a, b, a)
+	EJournalRef
 	NumEffects
 )
 
@@ -297,6 +300,21 @@ func callGas(depth int) uint64 {
 
 const TopGas = uint64(1) << 40
 
+// RefName / refKey / RefData: name, head slot and the two contents (a, b) of the reference variable of EJournalRef.
+func RefName(id, pos int) string { return string([]byte{'r', byte('0' + id), byte('0' + pos)}) }
+func refKey(id, pos int) uint64  { return sKey(id, pos) + 0x800 }
+func RefData(id, pos int, b bool) []byte {
+	out := make([]byte, 40)
+	for i := range out {
+		out[i] = byte(0x30 + id*16 + pos*4 + i%7)
+	}
+	out[0] = 0xAB
+	if b {
+		out[0], out[5] = 0xBA, 0xBB
+	}
+	return out
+}
+
 func JournalName(id, pos int) string { return string([]byte{'v', byte('0' + id), byte('0' + pos)}) }
 
 func valueOf(v int) uint64 {
@@ -347,6 +365,33 @@ func emitEffect(p *asm.P, e Effect, id, kid, pos int) {
 			p.Push(val).Push(key).Op(asm.SSTORE)
 			emit(j)
 		}
+	case EJournalRef:
+		for _, w := range gen.StrWords(0x200, []byte(RefName(kid, pos))) {
+			p.Push32(w.Word).Push(w.Off).Op(asm.MSTORE)
+		}
+		emit := func(s gen.JStep) {
+			for i := len(s.Operands) - 1; i >= 0; i-- {
+				p.PushU(s.Operands[i])
+			}
+			p.Op(s.Op)
+		}
+		k := uint256.NewInt(refKey(kid, pos))
+		emit(gen.RegisterRefVar(0x200, k, gen.TypeB))
+		store := func(data []byte) {
+			var w0, w1 common.Hash
+			copy(w0[:], data[:32])
+			copy(w1[:], data[32:])
+			p.Push32(w0).Push32(gen.DataSlot(k, 0)).Op(asm.SSTORE)
+			p.Push32(w1).Push32(gen.DataSlot(k, 1)).Op(asm.SSTORE)
+		}
+		j := gen.RefJournal(k, gen.TypeB)
+		p.Push(uint64(2*40 + 1)).Push(refKey(kid, pos)).Op(asm.SSTORE)
+		store(RefData(id, pos, false))
+		emit(j)
+		store(RefData(id, pos, true))
+		emit(j)
+		store(RefData(id, pos, false))
+		emit(j)
 	}
 }
 
@@ -422,6 +467,11 @@ func compileFrame(f *Frame, fork world.Fork, static bool, depth int, shared bool
 		if c.Reuse == 2 {
 			p.Push32(common.HexToHash("0xdeaddeaddeaddeaddeaddeaddeaddeaddeaddeaddeaddeaddeaddeaddeaddead")).Push(0).Op(asm.MSTORE)
 			p.Push32(common.HexToHash("0xdeaddeaddeaddeaddeaddeaddeaddeaddeaddeaddeaddeaddeaddeaddeaddead")).Push(32).Op(asm.MSTORE)
+			if c.Kind.IsCreate() {
+				// the init code was handed over from 0x80
+				p.Push32(common.HexToHash("0xdeaddeaddeaddeaddeaddeaddeaddeaddeaddeaddeaddeaddeaddeaddeaddead")).Push(0x80).Op(asm.MSTORE)
+				p.Push32(common.HexToHash("0xdeaddeaddeaddeaddeaddeaddeaddeaddeaddeaddeaddeaddeaddeaddeaddead")).Push(0xa0).Op(asm.MSTORE)
+			}
 		}
 	}
 	emitEffect(p, f.Post, f.ID, kid, 2)
